@@ -60,7 +60,7 @@ def data_index_state(ctx, rule='C10-R1'):
                 state = 'RANGE'
             elif o.name == 'set_index':
                 state = 'USER'
-            elif o.name in ROW_FILTERS or (o.name == 'drop' and dict(o.kws).get('axis', C(0)) in (C(0), C('index'))):
+            elif o.name == 'filter' or o.name in ROW_FILTERS or (o.name == 'drop' and dict(o.kws).get('axis', C(0)) in (C(0), C('index'))):
                 state = 'UNIQUE' if state == 'RANGE' else state
             elif o.name in NEUTRAL or o.name == 'drop':
                 pass
